@@ -49,27 +49,36 @@ end Yow.Conc
 
 namespace Yow.SendBuf
 
-/-- in the current source the dispatcher's send buffer is appended to, sent and cut under one lock, by the sending threads and
-    by the asyncore loop thread alike (observed on a real dispatcher over a socket pair; Gen/SendBufCfg.lean) -/
-theorem C11_socket_buffer_locked : Yow.Gen.sendBufCfg = { locked := true } := by decide
+/-- in the current source every access to the dispatcher's send buffer — the append of sendData (a load and a store) as well as
+    reading, sending and cutting in a flush — happens under one lock, for the sending threads and the asyncore loop thread alike
+    (observed on a real dispatcher over a socket pair; Gen/SendBufCfg.lean) -/
+theorem C11_socket_buffer_locked : Yow.Gen.sendBufCfg = { locked := true, appendLocked := true } := by decide
 
-/-- Below the network layer: for every schedule of the sending threads and the asyncore loop thread, the bytes handed to the
-    dispatcher are on the socket or still buffered, each exactly once, in order; when both have finished, the socket carries
-    exactly the frames; nothing deadlocks. -/
-theorem C11_socket_bytes_exactly_once (frames : List (List Nat)) (flushes : Nat) (sched : List Nat) :
+/-- Below the network layer: for every schedule of the sending threads and the asyncore loop thread and every sequence of partial
+    socket writes, the bytes handed to the dispatcher are on the socket or still buffered, each exactly once, in order (while a
+    flush is between its send and its cut the sent prefix is still in the buffer: `k`); whenever no flush is in progress, and in
+    particular when both threads have finished, socket ++ buffer is exactly what was handed over; nothing deadlocks. -/
+theorem C11_socket_bytes_exactly_once (frames : List (List Nat)) (flushes : Nat) (sched : List (Nat × Nat)) :
     let s := run (init Yow.Gen.sendBufCfg frames flushes) sched
     (∃ k, k ≤ s.buf.length ∧ s.socket ++ s.buf.drop k = s.appended) ∧
-    (finished s = true → s.socket = frames.flatten ∧ s.buf = []) ∧
-    (finished s = false → ∃ i, step s i ≠ s) := by
+    (s.lock = none → s.socket ++ s.buf = s.appended) ∧
+    (finished s = true → s.socket ++ s.buf = frames.flatten) ∧
+    (finished s = false → ∃ i, ∀ cap, step s i cap ≠ s) := by
   rw [C11_socket_buffer_locked]
-  exact ⟨socket_plus_buffer frames flushes sched, fun h => finished_socket_exact frames flushes sched h,
-         fun h => progress frames flushes sched h⟩
+  exact ⟨socket_plus_buffer frames flushes sched, quiescent_exact frames flushes sched, finished_exact frames flushes sched,
+         progress frames flushes sched⟩
 
 /-- Sensitivity: without the lock the loop thread and a sender put the same bytes on the socket twice. -/
 theorem C11_unlocked_buffer_duplicates :
-    ∃ sched, let s := run (init { locked := false } [[1, 2, 3], [4, 5]] 1) sched
-      finished s = true ∧ s.socket ≠ [1, 2, 3, 4, 5] :=
+    ∃ sched, let s := run (init { locked := false, appendLocked := false } [[1, 2, 3], [4, 5]] 1) sched
+      finished s = true ∧ s.socket ++ s.buf ≠ [1, 2, 3, 4, 5] :=
   unlocked_duplicates
 
-end Yow.SendBuf
+/-- Sensitivity: with the flush locked but the append outside the lock, a partial socket write followed by a flush of the loop
+    thread between the append's load and store repeats bytes on the socket. -/
+theorem C11_append_outside_lock_repeats :
+    ∃ sched, let s := run (init { locked := true, appendLocked := false } [[1, 2], [3]] 1) sched
+      finished s = true ∧ s.socket ++ s.buf ≠ [1, 2, 3] :=
+  append_outside_lock_repeats
 
+end Yow.SendBuf
